@@ -9,6 +9,14 @@ CLAIMED = {
     text="Theorems (Coq, all widths n>=1, all byte patterns, all integers) on the integer codec model: encode/decode are mutually inverse on exactly n bytes, out-of-range is an error, the value is the positional two's-complement value in the stated order, short slices never decode, endianness resolution table. The model is tied to bisturi/field.py on every run by the regenerated kernel G6_int + bridge lemmas and by running model and implementation on ~10^5 cases (exhaustive for 1-byte widths, lane/boundary-exhaustive above, both code paths, all endianness spellings).",
     note="Trusted: Coq kernel + vm_compute; harness/pygen.py; the case generator/renderer; CPython's struct/int.from_bytes/to_bytes are modelled by one codec (that they agree with it is what Tie B checks, by sampling above n=1).",
     technique="Coq proof of codec round-trip/range theorems + regenerated-kernel bridge lemmas + vm_compute correspondence", design="8/C05"),
+ 'C07': dict(
+    text="Theorems (Coq, all compositions of any number of bits, all integers): the compile step gives member i shift = sum of later widths and mask = (2^w-1)<<shift and rejects totals that are not a multiple of 8; unpack gives each member exactly (I / 2^shift) mod 2^w; after pack every slice holds its own value mod 2^w whatever the other values (any size, any sign) and the stale shared integer are; round trip. Tied to bisturi/field.py Bits by the regenerated kernel G5_bits (mask/shift/get/put expressions, boundary test) + bridge lemmas and by all 128 compositions of 8 bits x 256 patterns plus sampled 16..72-bit runs on model and implementation, both code paths.",
+    note="Trusted: Coq kernel + vm_compute; harness/pygen.py; python's unbounded two's-complement ints = Coq Z with Z.land/lor/lnot/shiftl/shiftr; class/case generator.",
+    technique="Coq proof (Z.testbit reasoning) of slice theorems + regenerated-kernel bridge lemmas + vm_compute correspondence", design="8/C07"),
+ 'C10': dict(
+    text="Theorems (Coq, all cursors/targets/alignments): Move.pack and Move.unpack are the same function of (cursor, innermost position); a packet parsed at start offset b is laid out identically relative to its start when serialized for innermost/current references (and for start-of-data only when b=0 or the alignment divides b: the refutation witness is finding D10, owned by C01); alignment advances by the least d in [0,a) reaching a multiple; negative positions are errors on both sides. Tied by the regenerated kernels G3_move/G4_seq (every position expression of both directions) + bridge lemmas, exhaustive direct calls of Move.unpack/Move.pack over alignment x reference x target x cursor x innermost position x target form, and repeated(aligned=a) classes at all start offsets.",
+    note="Trusted: Coq kernel + vm_compute; harness/pygen.py (python % = Z.modulo for non-zero modulus; zero modulus raises); enumeration harness. Whole-packet placement/fill is covered by C01/C11.",
+    technique="Coq proof of alignment minimality and shift-invariance + regenerated-kernel bridge lemmas + exhaustive vm_compute correspondence", design="8/C10"),
  'C11': dict(
     text="Theorems (Coq): under an inductive invariant, Fragments.insert raises exactly on overlap, otherwise stores exactly the chunk, moves the cursor, changes nothing else; tobytes puts every stored byte at its position with '.' in holes and length = extent; every operation history refines a sparse-array specification (induction over histories, unbounded). Tied to bisturi/fragments.py by the regenerated kernel G1_frag (every comparison and index expression of insert/tobytes) + bridge lemmas and by replaying all histories up to a length bound plus random longer ones on model and implementation.",
     note="Trusted: Coq kernel + vm_compute; harness/pygen.py and its templates; python dict + sorted() modelled as a key-sorted association list, bisect_right as count of elements <= x on a sorted list; history generator.",
